@@ -84,6 +84,13 @@ func runGoldenProc(bin string, pj []byte, perturb, procs int) (map[string]string
 	cmd := exec.Command(bin, "golden")
 	cmd.Stdin = bytes.NewReader(pj)
 	cmd.Env = append(os.Environ(), "JSIM_PERTURB="+strconv.Itoa(perturb), "GOMAXPROCS="+strconv.Itoa(procs), "GORACE=")
+	if perturb > 0 {
+		// "in every process": the second reference process also lives in another
+		// time zone and locale, collects garbage far more often, and finds a HOME and
+		// a working directory of its own
+		cmd.Env = append(cmd.Env, "TZ=Pacific/Kiritimati", "LANG=tr_TR.UTF-8", "LC_ALL=tr_TR.UTF-8", "GOGC=25", "HOME=/nonexistent", "USER=nobody")
+		cmd.Dir = os.TempDir()
+	}
 	var out, errb bytes.Buffer
 	cmd.Stdout, cmd.Stderr = &out, &errb
 	if err := cmd.Start(); err != nil {
